@@ -13,7 +13,7 @@ for d in sorted(glob.glob(os.path.join(V, "seeded", "C*_*"))):
     if rnd:
         if str(m.get("round", "")) != rnd:
             continue
-    elif m.get("round") in (7, 8, 9):
+    elif m.get("round") in (7, 8, 9, 10):
         continue
     c = m.get("confirmed_by_coordinator", {})
     what = " ".join(m.get("summary", "").split())
